@@ -128,8 +128,11 @@ class Gen:
             return self.template(d - 1)
         if k < 76:
             return "tag" + self.template(d - 1)
-        if k < 79:
+        if k < 78:
             return "new " + self.r.choice(["Foo", "RegExp", "o.C"]) + "(" + self.args(d - 1) + ")"
+        if k < 79:
+            self.tags.add('dynamic-import')
+            return "import(" + self.expr(d - 1) + ")"
         if k < 83:
             return self.r.choice(["typeof ", "-", "!", "void ", "+"]) + self.operand(d - 1)
         if k < 85:
@@ -214,6 +217,12 @@ class Gen:
                 out.append("m(" + self.params(d) + "){ " + self.stmts(d, 1) + " }")
             elif k == 3:
                 out.append("..." + self.operand(d))
+            elif k == 4 and self.r.chance(1, 2):
+                self.tags.add('object-accessor')
+                if self.r.chance(1, 2):
+                    out.append("get g" + str(self.r.below(3)) + "(){ " + self.directives() + self.stmts(d, 1) + " }")
+                else:
+                    out.append("set s" + str(self.r.below(3)) + "(v){ " + self.directives() + self.stmts(d, 1) + " }")
             else:
                 out.append(self.r.choice(["k", "v", "name"]) + ": " + self.expr(d))
         return ", ".join(out)
@@ -290,12 +299,17 @@ class Gen:
             arr = "[[" + self.expr(d) + ", " + self.ident() + "], " + self.expr(d) + "]"
         else:
             arr = "[" + self.array_elems(d) + "]"
-        extra = self.r.choice(["", "", "", ", 1"])
+        extra = self.r.choice(["", "", "", ", 1", ", " + self.ident() + "()", ", ..." + self.ident() + "()"])
+        if extra not in ("", ", 1"):
+            self.tags.add('apply-surplus-args')
         return path + "." + m + ".apply(" + this + ", " + arr + extra + ")"
 
     def opt_chain(self, d):
         k = self.r.below(12)
         a = self.r.choice([self.ident(), self.ident(), self.ident() + "()", self.strlit(), "(" + self.expr(d) + ")"])
+        if self.r.chance(1, 12):
+            self.tags.add('optchain-on-literal')
+            a = self.r.choice(["null", "1", "'abc'", "undefined", "/re/", "true"])
         m = self.method()
         if k == 0:
             return a + "?." + m + "(" + self.args(d) + ")"
@@ -470,6 +484,7 @@ class Gen:
     def klass(self, d):
         members = []
         has_ctor = False
+        ext = self.r.choice(["", " extends Base"])
         for _ in range(1 + self.r.below(3)):
             k = self.r.below(7)
             if k == 5:
@@ -488,7 +503,11 @@ class Gen:
             elif k == 4:
                 members.append("get g() { " + self.directives() + self.stmts(d, 1) + " }")
             elif k == 5:
-                members.append("constructor(" + self.params(d) + ") { " + self.stmts(d, 2) + " }")
+                sup = ""
+                if ext and self.r.chance(2, 3):
+                    self.tags.add('super-call-args')
+                    sup = "super(" + self.expr(d) + ", " + self.r.choice([self.ident() + " + " + self.ident(), "`${" + self.ident() + "}!`", self.ident() + "." + self.method() + "()"]) + "); "
+                members.append("constructor(" + self.params(d) + ") { " + self.directives() + sup + self.stmts(d, 2) + " }")
             elif k == 6 and self.r.chance(1, 2):
                 self.tags.add('private-name')
                 m = self.method()
@@ -501,7 +520,7 @@ class Gen:
                 members.append("sm(v) { " + " ".join(self.r.choice(forms) for _ in range(1 + self.r.below(3))) + " }")
             else:
                 members.append("m(" + self.params(d) + ") { " + self.stmts(d, 2) + " }")
-        return "class K" + str(self.r.below(5)) + self.r.choice(["", " extends Base"]) + " { " + " ".join(members) + " }"
+        return "class K" + str(self.r.below(5)) + ext + " { " + " ".join(members) + " }"
 
     def program(self, d=3, module=None):
         self.tags = set()
@@ -717,7 +736,7 @@ def literal_requests(seed, n):
         elif place == 1:
             src = "%sconst v = %s, w = %s;" % (pad, lit(), lit())
         elif place == 2:
-            src = "function f(a){ const o = {%sk: %s, 'q': %s, [a]: %s}; return o; }" % (pad, lit(), lit(), lit())
+            src = "function f(a){ const o = {%sk: %s, 'q': %s, [a]: %s, [%s]: %s, [a + %s]: %s}; return o; }" % (pad, lit(), lit(), lit(), lit(), lit(), lit(), lit())
         elif place == 3:
             src = "function f(a){ return a.concat(%s, %s)%s; }" % (lit(), lit(), pad)
         elif place == 4:
